@@ -435,12 +435,14 @@ func generate(w *mon.W) {
 	}
 	// non-substitution positions
 	queries := []string{
-		"T | where `%s` == 1", "T | where %s.a == 1", "T | where a.%s == 1", "T | where %s(1) == 2", "%s | count", "%s", "%s;", "%s | as r", "let other1 = 1; %s // c\n", "T | project %s = a", "T | extend %s = 1",
+		"T | where `%s` == 1", "T | where %s.a == 1", "T | where a.%s == 1", "T | where %s(1) == 2", "T | where %s(a) == 'x' | extend r = %s(a, 1, 0) | summarize %s(a == 1) by k", "T | where %s() > 0", "%s | count", "%s", "%s;", "%s | as r", "let other1 = 1; %s // c\n", "T | project %s = a", "T | extend %s = 1",
 		"T | summarize %s = count() by k", "T | summarize c = count() by %s = k", "T | as %s | count", "T | render %s", "T | render pie with (%s = 1)", "T | join (%s) on k",
 		"T | join kind=inner (U) on $left.%s == $right.%s", "T | where f(`%s`) and a.b.%s", "let %s2 = 1; T | where %s2 == 1",
 	}
 	for _, q := range queries {
-		for _, name := range []string{"x", "ia", "T", "count", "true", "U", "pie"} {
+		for _, name := range []string{"x", "ia", "T", "count", "true", "U", "pie",
+			// a binding named like a built-in function does not change what a call of that function is
+			"tolower", "toupper", "not", "isnull", "isnotnull", "iff", "iif", "strcat", "now", "countif"} {
 			c := &Case{NoSubst: &NoSubst{Query: strings.ReplaceAll(q, "%s", name), Name: name}}
 			w.Do("nosubst|"+c.NoSubst.Query, func(r *mon.R) { Check(c, r) })
 		}
